@@ -24,7 +24,7 @@ KNOWN_FINDINGS = os.path.join(VERIF, 'known_findings.txt')
 TIMEOUT_SCALE = float(os.environ.get('VERIF_TIMEOUT_SCALE', '1.0'))
 JOBS = int(os.environ.get('VERIF_JOBS', str(max(2, (os.cpu_count() or 4) - 2))))
 
-INCLUDES = ['-I' + os.path.join(REPO, 'include'), '-I' + os.path.join(REPO, 'include_prv'), '-I' + HARNESS]
+INCLUDES = ['-I' + os.path.join(REPO, 'include'), '-I' + os.path.join(REPO, 'include_prv'), '-I' + os.path.join(REPO, 'src'), '-I' + HARNESS]
 BASE_DEFS = ['-DJLS_VERIF=1']
 
 CBMC_FLAGS = [
@@ -71,6 +71,7 @@ class Obl:
         self.weight = weight if weight != 1 or not isinstance(backend, (list, tuple)) else len(backend)
         self.native_defs = list(native_defs)
         self.objbits = objbits
+        self.units_note = []
 
 
 def sh(cmd, cwd=None, timeout=None, env=None):
@@ -105,7 +106,7 @@ def build_goto(obl, wd, extra_defs):
     for s in list(obl.stubs) + [obl.harness]:
         src = os.path.join(HARNESS, s)
         out = os.path.join(wd, 'h_' + s.replace('/', '_') + '.gb')
-        rc, o = sh(['goto-cc', '-c', src, '-o', out] + INCLUDES + defs + _unit_defs(src))
+        rc, o = sh(['goto-cc', '-c', src, '-o', out, '-msse4.2'] + INCLUDES + defs + _unit_defs(src))
         if rc:
             raise RuntimeError('goto-cc failed for harness %s:\n%s' % (s, o))
         objs.append(out)
@@ -599,13 +600,14 @@ def write_evidence(prop, title, tier, seed, results, wall, level_text, trusted_b
     for r in sorted(results, key=lambda r: r.obl.name):
         o = r.obl
         fn_units.update(o.units)
+        fn_units.update(getattr(o, 'units_note', []))
         a = r.attempts[-1] if r.attempts else {}
         stt = a.get('stats', {})
         total_solver += stt.get('solver_s', 0.0) + stt.get('decision_s', 0.0)
         total_props += a.get('properties_checked', 0) or 0
         e = {
             'obligation': o.name, 'what': o.desc, 'status': r.status, 'bound_decided': r.rung,
-            'bound_text': o.bound, 'units_encoded': o.units, 'seams_stubbed': o.seams, 'environment_stubs': o.stubs,
+            'bound_text': o.bound, 'units_encoded': o.units + list(getattr(o, 'units_note', [])), 'seams_stubbed': o.seams, 'environment_stubs': o.stubs,
             'harness': 'harness/' + o.harness, 'assumes': o.assumes, 'backend': (r.attempts[-1].get('backend') if r.attempts else None) or 'minisat2',
             'attempts': r.attempts, 'wall_s': round(r.wall, 1),
         }
